@@ -333,6 +333,10 @@ type ccGenOpts struct {
 	distinctTriggers bool
 	// noInvoice restricts preimage knowledge to the witness beacon.
 	noInvoice bool
+	// sameRemoteDust gives an offered HTLC that lives only on the peer's
+	// two commitments the same dust bit on both (lnd's treatment of the
+	// other case depends on map iteration order: known finding).
+	sameRemoteDust bool
 }
 
 // ccGenScenario draws a scenario. Every HTLC is placed in a life-cycle
@@ -417,6 +421,12 @@ func ccGenScenario(t *rapid.T, o ccGenOpts) *ccScenario {
 			for s := 0; s < 3; s++ {
 				h.Dust[s] = rapid.Bool().Draw(t, "dust")
 			}
+		}
+
+		if o.sameRemoteDust && !h.Incoming && !h.On[ccL] &&
+			h.On[ccR] && h.On[ccP] {
+
+			h.Dust[ccP] = h.Dust[ccR]
 		}
 
 		h.Expiry = uint32(int(sc.Base) +
